@@ -71,22 +71,9 @@ StepProps == [][ hist' # hist =>
                  LET ev == hist'[Len(hist')] IN C10Step(st, st', ev) /\ C02Step(st, st', ev) /\ C04Step(st, st', ev) ]_vars
 Emit == phase = "done" => PrintT(<<"TRACE", ToJson(hist)>>)
 
-ApplyAll(s, evs) == FoldL(LAMBDA e, acc : Step(acc, e).st, s, evs)
 SweepPrefix == << [a |-> "BeginBlock", dt |-> 1000],
                   Tx(<<SCreate("A2", "A1", 120, "nund", 2)>>), Tx(<<SCreate("A3", "A1", 60, "other", 1)>>), Tx(<<SCreate("A3", "A2", 250, "nund", 1)>>),
                   EndEv, ComEv, [a |-> "BeginBlock", dt |-> 30000],
                   Tx(<<[t |-> "SClaim", sender |-> "A1", receiver |-> "A2"]>>),
                   EndEv, ComEv, [a |-> "BeginBlock", dt |-> 40500] >>
-SweepInit == /\ st = ApplyAll(StateOf(Gen), SweepPrefix) /\ phase = "block"
-             /\ hist = <<[a |-> "InitChain", g |-> Gen]>> \o SweepPrefix /\ nTx = 0 /\ nFail = 0
-SweepNext ==
-  \/ /\ phase = "block" /\ nTx = 0
-     /\ \E ev \in TxAlphabet :
-          LET r == Step(st, ev) IN
-          st' = r.st /\ hist' = Append(hist, ev) /\ nTx' = 1 /\ UNCHANGED <<phase, nFail>>
-  \/ /\ phase = "block" /\ nTx = 1
-     /\ LET tail == <<EndEv, ComEv, [a |-> "BeginBlock", dt |-> 1000],
-                      Tx(<<[t |-> "SClaim", sender |-> "A1", receiver |-> "A2"]>>), Tx(<<[t |-> "SClaim", sender |-> "A2", receiver |-> "A3"]>>), EndEv, ComEv>> IN
-        st' = ApplyAll(st, tail) /\ hist' = hist \o tail /\ phase' = "done" /\ UNCHANGED <<nTx, nFail>>
-SpecSweep == SweepInit /\ [][SweepNext]_vars
 =============================================================================
